@@ -19,48 +19,17 @@ def nextOf : List HTok → Next
   | [] => .eof
   | .text d _ :: r => if allWs d then nextOf r else .other
   | .comment _ _ :: r => nextOf r
-  | .doctype :: r => nextOf r
+  | .doctype :: _ => .other
   | .startTag n _ :: _ => .start n
   | .endTag n _ :: _ => .end_ n
   | .svg _ :: _ => .start "svg".toList
   | .math _ :: _ => .start "math".toList
   | .template _ :: _ => .other
 
-/-- **K-C03-4** (`pend`): `</p>` directly (whitespace aside) before the end tag of an autonomous custom element,
-    of `slot`, or of an element unknown to the minifier — the minifier omits it, but for these end tags the tree
-    builder does not close the open `p` (the end tag is ignored and what follows lands inside the `p`).  The
-    standard excludes autonomous custom elements as parent explicitly. -/
-def knownToMinifier (n : List Char) : Bool := (Verif.Gen.C03Tables.tagMap.lookup n).isSome
-def trigPEnd (e : List Char) (nx : Next) : Bool :=
-  e = "p".toList &&
-  (match nx with
-   | .end_ n => isCustomName n || n = "slot".toList || !knownToMinifier n
-   | _ => false)
-
-/-- end tags that html.go omits unconditionally -/
-def alwaysOmitted : List String :=
-  ["thead", "tbody", "tfoot", "tr", "th", "td", "option", "dd", "dt", "li", "rb", "rt", "rtc", "rp"]
-
-/-- **K-C03-5** (`endomit`): an end tag that html.go omits unconditionally (or `</optgroup>`), followed by something
-    that the content models allow there but before which the standard does not allow the omission:
-    a script-supporting element (`<li>a</li><script>`), `</thead>` before `<tr>`, `</rt>`/`</rp>` before more ruby
-    base text, `</dt>` as the last tag, `</optgroup>` before a comment and an `<option>`. -/
-def trigEndOmit (e : List Char) (rest : List HTok) : Bool :=
-  let nx := nextOf rest
-  ((isOneOf e alwaysOmitted || e = "optgroup".toList) && conformingAfter e nx && !mayOmitEnd e nx) ||
-  (e = "optgroup".toList &&
-    (match rest with
-     | .comment _ _ :: _ => nextOf rest == .start "option".toList
-     | .text _ _ :: .comment _ _ :: _ => nextOf rest == .start "option".toList
-     | _ => false))
-
 /-- **K-C03-6** (`colgroup`): an attribute-less `colgroup` start tag whose omission the standard does not allow
-    (empty, or not starting with `col`, or right after another `colgroup`): html.go drops the tags regardless.
-    **K-C03-7** (`bodystart`): an attribute-less `body` start tag in front of an element that the tree builder
-    puts into `head` when no `body` is open (`script`, `style`, `link`, `meta`, `template`, `noscript`, …). -/
+    (empty, or not starting with `col`, or right after another `colgroup`): html.go drops the tags regardless. -/
 def trigStartDrop (prev : Next) (name : List Char) (rest : List HTok) : Option String :=
   if name = "colgroup".toList && !mayOmitStart name prev (nextOf rest) then some "colgroup"
-  else if name = "body".toList && !mayOmitStart name prev (nextOf rest) then some "bodystart"
   else none
 
 /-- a text that ends inside something that looks like the beginning of a reference -/
@@ -90,8 +59,8 @@ def attrSem (tag : List Char) (attrs : List Attr) : Bool :=
        | some n => (n.filter (fun c => !isWsChar c)) = "viewport".toList
        | none => false) && a.val.any isWsChar))
 
-/-- **K-C03-12** (`prenl`): `<pre>` followed by a comment and then a newline: removing the comment puts the newline
-    right after the start tag, where the parser drops it -/
+/-- **K-C03-15** (`prekept`): `<pre>` followed by a comment and then a newline.  html.go writes an extra newline
+    (fix of K-C03-12) — also when the comment is a conditional comment that is kept -/
 def commentThenNewline : Bool → List HTok → Bool
   | seen, .comment _ _ :: r => commentThenNewline (seen || true) r
   | seen, .text d _ :: _ => seen && (d.head? = some '\n' || d.head? = some '\r')
@@ -109,20 +78,16 @@ def docTriggersFrom : Scan → List HTok → List String
     let here : List String :=
       match t with
       | .text d _ =>
-        (if glue d then ["glue"] else []) ++ (if ctlRef d || crLfRef d then ["ctlref"] else []) ++
+        (if crLfRef d then ["crlf"] else []) ++
         (if hexOverflow d then ["hexoverflow"] else []) ++
         (if sc.lastText && (d.head?.map isRefCh).getD false then ["textjoin"] else [])
       | .endTag e _ =>
-        (if trigPEnd e (nextOf rest) then ["pend"] else []) ++ (if trigEndOmit e rest then ["endomit"] else [])
+        []
       | .startTag n attrs =>
         (match trigStartDrop sc.prev n rest with | some x => if attrs.isEmpty then [x] else [] | none => []) ++
-        (if isOneOf n wsMisclassified then ["wsclass"] else []) ++
-        (if attrSem n attrs then ["attrsem"] else []) ++
-        (if isOneOf n ["pre", "listing"] && commentThenNewline false rest then ["prenl"] else []) ++
         (if (n = "style".toList && attrs.any (fun a => a.name = "amp-boilerplate".toList)) ||
             isOneOf n ["xmp", "listing", "plaintext", "noembed", "noframes"] then ["rawstyle"] else []) ++
-        (if attrs.any (fun a => glue a.val) then ["glue"] else []) ++
-        (if attrs.any (fun a => ctlRef a.val || crLfRef a.val) then ["ctlref"] else []) ++
+        (if attrs.any (fun a => crLfRef a.val) then ["crlf"] else []) ++
         (if attrs.any (fun a => hexOverflow a.val) then ["hexoverflow"] else [])
       | _ => []
     let sc' : Scan :=
